@@ -313,6 +313,8 @@ class _Inliner:
             body = self._instantiate(st, call, form, t, recv)
         except _Refuse:
             return None
+        except (AttributeError, TypeError, ValueError, KeyError, IndexError):
+            return None     # a shape the inliner does not understand: the call stays a call
         self.inlined.append(t.key)
         self.ctx.functions_analysed.add(t.key)
         if depth + 1 < self.max_depth:
@@ -750,10 +752,13 @@ def normal_form(ctx, f: FuncInfo, keep: Iterable[str] = (), inline: bool = True,
         inl.run(new)
         inlined = inl.inlined
     n_alias = 0
-    if temps:
-        n_alias += inline_temps(new, f.params)
-    if alias:
-        n_alias += resolve_aliases(new, f.params, alias, volatile=volatile)
+    try:
+        if temps:
+            n_alias += inline_temps(new, f.params)
+        if alias:
+            n_alias += resolve_aliases(new, f.params, alias, volatile=volatile)
+    except (AttributeError, TypeError, ValueError, KeyError, IndexError):
+        pass                # every single replacement is complete in itself: a partly resolved function is still equivalent
     ast.fix_missing_locations(new)
     nf = NormalForm.__new__(NormalForm)
     nf.__dict__.update(f.__dict__)
